@@ -237,6 +237,27 @@ def handleC01 : Handler := fun comp a impl =>
     let c := parseCfg cfg
     let s := run c es
     some { model := showRun s es, verdict := oracle c es impl }
+  | "lazy.msg", [typ, ts, payload] =>
+    let m : InMsg := { typ := nat! typ, ts := nat! ts, payload := hex! payload }
+    let model := s!"{Hex.ofBytes (chunksWithSdf m)} {Hex.ofBytes (chunksWithoutSdf m)} {Hex.ofBytes (tagWithoutSdf m)}"
+    -- oracle: the strict readers read each form back as ONE message / tag with the message's type and timestamp whose
+    -- payload is the published payload with the @setDataFrame rule applied
+    let v := match impl.splitOn " " with
+      | [cw, cwo, two] =>
+        let chunkOk (h : String) (want : Bytes) : Bool :=
+          match decodeRtmp (hex! h) with
+          | some [(t, s, p)] => t == m.typ && s == m.ts && p == want
+          | _ => false
+        let tagOk (h : String) (want : Bytes) : Bool :=
+          match FlvSpec.readTags (hex! h).length (hex! h) with
+          | some [t] => t.typ.toNat == m.typ && t.ts == m.ts && t.payload == want
+          | _ => false
+        if !chunkOk cw (withSdf m.typ m.payload) then "bad:chunks-with-sdf-do-not-decode-to-the-message"
+        else if !chunkOk cwo (withoutSdf m.typ m.payload) then "bad:chunks-without-sdf-do-not-decode-to-the-message"
+        else if !tagOk two (withoutSdf m.typ m.payload) then "bad:tag-without-sdf-does-not-decode-to-the-message"
+        else "ok"
+      | _ => "bad:" ++ impl
+    some { model := model, verdict := v }
   | _, _ => none
 
 end Drv.C01
